@@ -500,6 +500,10 @@ func bigOf(s string) *big.Int {
 	return z
 }
 
+// search mode: values hug the boundaries of every width, nil/omitted is frequent
+var boundaryBias = false
+var nilChance = 30
+
 // genInt: a value within the kind's range and within the float64-exact range |z| <= 2^53.
 func genInt(r *vh.Rng, ik string) *big.Int {
 	lo, hi := bigOf(intRange[ik][0]), bigOf(intRange[ik][1])
@@ -509,6 +513,25 @@ func genInt(r *vh.Rng, ik string) *big.Int {
 	}
 	if hi.Cmp(two53) > 0 {
 		hi = two53
+	}
+	if boundaryBias && r.Chance(75) {
+		// +-1 around every power of two that bounds a width, clipped to the range of this kind
+		var c []*big.Int
+		for _, k := range []uint{7, 8, 15, 16, 31, 32, 52, 53} {
+			p := new(big.Int).Lsh(big.NewInt(1), k)
+			for _, d := range []int64{-2, -1, 0, 1} {
+				x := new(big.Int).Add(p, big.NewInt(d))
+				c = append(c, x, new(big.Int).Neg(x))
+			}
+		}
+		c = append(c, big.NewInt(0), big.NewInt(1), big.NewInt(-1))
+		var ok []*big.Int
+		for _, x := range c {
+			if x.Cmp(lo) >= 0 && x.Cmp(hi) <= 0 {
+				ok = append(ok, x)
+			}
+		}
+		return ok[r.Intn(len(ok))]
 	}
 	switch r.Intn(8) {
 	case 0:
@@ -669,13 +692,13 @@ func genVal(r *vh.Rng, m *MTy, depth int) (*Val, *Lit) {
 		}
 		return scalarVal(reflect.ValueOf(m.Enum.vals[i])), w
 	case "ptr":
-		if r.Chance(30) {
+		if r.Chance(nilChance) || m.Elem.base().Cut {
 			return &Val{K: "nil"}, &Lit{K: "null"}
 		}
 		v, w := genVal(r, m.Elem, depth)
 		return &Val{K: "ptr", P: v}, w
 	case "opt":
-		if r.Chance(35) {
+		if r.Chance(nilChance + 5) {
 			return zeroVal(m.Elem), &Lit{K: "null"}
 		}
 		return genVal(r, m.Elem, depth)
@@ -683,6 +706,9 @@ func genVal(r *vh.Rng, m *MTy, depth int) (*Val, *Lit) {
 		n := r.Intn(4)
 		if depth <= 0 {
 			n = r.Intn(2)
+		}
+		if m.Elem.base().Cut {
+			n = 0
 		}
 		v, w := &Val{K: "list", L: []*Val{}}, &Lit{K: "list", L: []*Lit{}}
 		for i := 0; i < n; i++ {
